@@ -13,8 +13,8 @@ Clauses of the property:
   (b) robustness on ANY directive sequence                 C13_never_pops_base, C13_stray_directive_is_error
   (c) "the skipped side of &&, || or ?: never causes an error or a crash"
                                                           C13_no_trap_guarded, C13_eager_and_traps
-                                                          (value agreement of eval with evalC: checked by the
-                                                          three-way run, not proved)
+                                                          C13_eval_agrees_with_C (value agreement on the
+                                                          class S64; outside it: checked by the run)
   (d) "produces exactly the token sequence"                C13_expand_fuel_monotone,
                                                           C13_expand_terminates_full / _full_fails / _partial,
                                                           C13_expand_agrees_full / _full_fails / _partial
@@ -24,6 +24,7 @@ import OccaProofs.Lemmas.CppCond
 import OccaProofs.Lemmas.CppExpand
 import OccaProofs.Lemmas.CppObj
 import OccaProofs.Lemmas.CppObjAgree
+import OccaProofs.Lemmas.CppEvalAgree
 import OccaModel.Cpp
 
 namespace Occa.Cpp.C13
@@ -130,6 +131,23 @@ theorem C13_eager_and_traps :
     eval false (.bin .land (.lit false 0) (.bin .div (.lit false 1) (.lit false 0))) = .trap ∧
     eval false (.bin .lor (.lit false 1) (.bin .mod (.lit false 1) (.lit false 0))) = .trap := by
   decide
+
+/-- On the class `S64` (arithmetic, bitwise, relational operators and unary + - ~ applied to 64-bit integer
+    operands only — bool-typed results feed `!`, `&&`, `||`, `?:` only —, no shifts, both arms of `?:` of the
+    same kind and signedness) OCCA's evaluator with the repairs F60 (intmax_t/uintmax_t literals) and F18
+    (short-circuit) computes exactly what C computes: whenever C gives the expression a value (no signed
+    overflow, no division by zero in an EVALUATED operand), `evaluate()` does not crash and returns that
+    value; hence the `#if` takes the same branch.  Outside the class the counter-examples are the recorded
+    findings (F66: `~bool`, `bool & bool`, `?:` with mixed signedness; shifts: C14's F20). -/
+theorem C13_eval_agrees_with_C (e : Expr) (hs : S64 e = true) (c : CVal) (hc : evalC e = .val c) :
+    (∃ p, eval true e = .val p ∧ p.v = c.v) ∧ evalCR true (some e) = evalCCR (some e) := by
+  obtain ⟨p, hp, hv, _, _⟩ := eval_agrees e hs c hc
+  refine ⟨⟨p, hp, hv⟩, ?_⟩
+  simp only [evalCR, evalCCR, hp, hc, PVal.truth, hv]
+  by_cases h0 : c.v = 0 <;> simp [h0]
+
+example : S64 (.bin .land (.bin .gt (.bin .add (.lit false 2147483647) (.lit false 1)) (.lit false 0))
+                          (.un .not (.bin .div (.lit true 7) (.lit false 2)))) = true := by decide
 
 /-! ### (d) macro expansion
 
